@@ -76,7 +76,15 @@ def gen_history(rng, ctx):
     n_ev = int(rng.integers(4, 40))
     events = []
     for _ in range(n_ev):
-        if n_sk > 1 and rng.random() < 0.15:
+        r0 = rng.random()
+        if r0 > 0.95:
+            if rng.random() < 0.5:
+                events.append(["copy", int(rng.integers(0, n_sk)), pick(rng, ["deepcopy", "pickle", "copy"])])
+            else:
+                nk = int(rng.integers(3, 6))  # equal-sized chunks: the temporaries perform the same number of calls
+                events.append(["tmpmerge", int(rng.integers(0, n_sk)), [["ulist", [hx(rand_key(rng, 1, 9)) for _ in range(nk)]]]])
+                events.append(["tmpmerge", events[-1][1], [["ulist", [hx(rand_key(rng, 1, 9)) for _ in range(nk)]]]])
+        elif n_sk > 1 and r0 < 0.15:
             a, b = int(rng.integers(0, n_sk)), int(rng.integers(0, n_sk))
             events.append(["merge", a, b] + (["q"] if rng.random() < 0.4 else []))
         else:
@@ -113,17 +121,51 @@ def run_history(case, ctx, mon):
             mon.count("merges")
             if a != b:
                 mon.check(np.array_equal(real[b].registers, before_b), "merge-leaves-other-unchanged", ev=ev)
+        elif ev[0] == "copy":
+            a = ev[1]
+            real[a] = mon.api(state.duplicate, real[a], ev[2])
+            mon.count("copies:" + ev[2])
+        elif ev[0] == "tmpmerge":
+            # a temporary sketch is filled, merged in and dropped (the next temporary may live at the same address)
+            a = ev[1]
+            tmp, tm = s.HyperLogLog(p, seed), Model(p, seed)
+            for op in ev[2]:
+                ops.apply_op(tmp, op)
+                for k, _v in ops.effects(op):
+                    tm.add(k, mon)
+            mon.api(real[a].merge, tmp)
+            model[a].merge(tm)
+            del tmp
+            n_merges += 1
+            mon.count("temporary_operands_merged")
         else:
             i, op = ev[0], ev[1]
-            mon.api(ops.apply_op, real[i], op)
-            for k, _v in ops.effects(op):
-                if k in model[i].keys:
-                    n_dups += 1
-                model[i].add(k, mon)
+            if op[0] == "ulist_bad":
+                before = np.array(real[i].registers, copy=True)
+                exc = ops.apply_failing(real[i], op)
+                mon.check(exc is not None, "update-with-an-unacceptable-item-raises", op=op)
+                trial = Model(p, seed)
+                trial.reg[:] = model[i].reg
+                for k, _v in ops.effects(op):
+                    trial.add(k)
+                if np.array_equal(real[i].registers, trial.reg):
+                    for k, _v in ops.effects(op):
+                        model[i].add(k, mon)
+                    mon.count("failed_updates:prefix_applied")
+                elif np.array_equal(real[i].registers, before):
+                    mon.count("failed_updates:nothing_applied")
+                else:
+                    mon.check(False, "failed-update-leaves-prefix-or-nothing(registers)", op=op, p=p)
+            else:
+                mon.api(ops.apply_op, real[i], op)
+                for k, _v in ops.effects(op):
+                    if k in model[i].keys:
+                        n_dups += 1
+                    model[i].add(k, mon)
             mon.count("ops:" + op[0])
             i_check = i
             a = i
-        if ev[0] != "merge" and len(ev) > 2 and ev[2] == "q" or (ev[0] == "merge" and len(ev) > 3):
+        if isinstance(ev[0], int) and len(ev) > 2 and ev[2] == "q" or (ev[0] == "merge" and len(ev) > 3):
             # quiescent observation in the middle of the history: query() must be the estimate of the *current* registers,
             # i.e. bit-identical to the first query() of a brand-new sketch holding the same registers
             got = float(mon.api(real[a].query))
@@ -189,6 +231,11 @@ def gen_crafted(rng, ctx):
             seed = hashes_ref.seed_for_target(key, target)
             others = [hx(rand_key(rng, 0, 12)) for _ in range(3)]
             yield {"type": "crafted", "p": p, "seed": seed, "key": hx(key), "idx": idx, "rank": rank, "others": others}
+        for target in (0, 2**64 - 1, 1, 2**63, 2**32 - 1, 2**64 - 2):
+            key = rand_key(rng, 1, 7)
+            seed = hashes_ref.seed_for_target(key, target)
+            idx, rank = hll_ref.rank_and_index(target, p)
+            yield {"type": "crafted", "p": p, "seed": seed, "key": hx(key), "idx": idx, "rank": rank, "others": [], "sentinel_target": target}
 
 
 def run_crafted(case, ctx, mon):
@@ -232,6 +279,20 @@ def run_crafted(case, ctx, mon):
     h2.add(key, 5)
     mon.check(np.array_equal(h.registers, m.reg), "registers==model(distinct keys)", p=p, seed=seed)
     mon.check(np.array_equal(h.registers, h2.registers), "order-independent", p=p, seed=seed)
+    if case.get("sentinel_target") is not None:
+        # the key hashes to a value an implementation might use as "no hash yet": 0, 2^64-1, ...; feed it as the FIRST window of an
+        # n-gram call, as the last, and alone
+        for record, n in ((key + b"x", len(key)), (b"y" + key, len(key)), (key, len(key) + 1)):
+            if len(key) == 0:
+                continue
+            hx_ = s.HyperLogLog(p, seed)
+            mx = Model(p, seed)
+            hx_.add_ngram(record, n)
+            for wdw in hll_ref.windows(record, n):
+                mx.add(wdw)
+            mon.check(np.array_equal(hx_.registers, mx.reg), "registers==model(n-gram whose window hashes to a sentinel-like value)", p=p, seed=seed,
+                      record=hx(record), ngram=n, hash_target=case["sentinel_target"])
+        mon.count("crafted_sentinel_hashes")
     mon.seen("crafted_rank", f"p{p}:r{case['rank']}")
     mon.count("crafted")
     mon.nontrivial(case["rank"] >= 20)
@@ -332,6 +393,9 @@ def gen_cases(ctx):
     for rep in range(3 if ctx.quick else 8):
         # p = 7: 128 registers, thousands of keys per thread -> every register is contended
         yield {"type": "threads", "p": pick(rng, [7, 8]), "seed": pick(rng, [0, 5]), "threads": 8, "keys": 3000, "stream": int(rng.integers(0, 2**31))}
+    fam = [b"ab", b"ab\x00", b"\x00", b"", b"q", b"ab\x00\x00", b"\xff\x00"]
+    yield {"type": "history", "p": 10, "seed": 3, "n": 1, "final": 0,
+           "events": [[0, ["ulist_rep", [hx(k) for k in fam], pick(rng, [65536, 70000])], "q"], [0, ["add", hx(b"zz"), 1]]]}
     if ctx.shard == 0 or ctx.thorough:
         yield from gen_sentinel(rng, ctx)
         yield from gen_crafted(rng, ctx)
